@@ -642,6 +642,76 @@ func C16(c *core.Ctx) {
 		c.Extra["rib_refresh_fib_calls"] = nCl + nIns
 	}
 
+	// ---- R16.7 face teardown never waits for itself: the only receiver of a channel field
+	// makes no blocking send on it in what it runs itself (deferred Close included)
+	{
+		n := selfWait(c, "R16.7", []string{"fw/face", "fw/fw", "fw/mgmt", "fw/table", "fw/dispatch"}, "the goroutine waits for a receive only it could perform: the face is never removed from the face table, its routes and FIB next hops stay, and whoever closes it again blocks too")
+		c.Floor("R16.7", "channel fields with a single receiving function in fw/", n, 1)
+	}
+	// ---- R16.8 a channel kept in a struct field is closed only if nobody else sends on it:
+	// a send on a closed channel panics, and Close() of a face runs on another goroutine than
+	// the senders (the component, the face's send goroutine, other faces' teardown through
+	// the readvertiser)
+	{
+		nClosed := 0
+		for _, pkg := range []string{"fw/face", "fw/fw", "fw/mgmt", "fw/table", "fw/dispatch"} {
+			chanKey := func(ch ssa.Value) string {
+				if _, path := core.FieldPath(ch); len(path) > 0 {
+					if t := core.Deref(rootType(ch)); t != nil {
+						return strings.TrimPrefix(t.String(), core.ModPath+"/") + "." + path[len(path)-1]
+					}
+				}
+				return ""
+			}
+			closedIn := map[string]*ssa.Function{}
+			closedAt := map[string]ssa.Instruction{}
+			sends := map[string][]ssa.Instruction{}
+			for _, fn := range p.FuncsIn(core.ModPath + "/" + pkg) {
+				if strings.HasSuffix(p.File(fn.Pos()), "_test.go") {
+					continue
+				}
+				core.Instrs(fn, func(in ssa.Instruction) {
+					switch x := in.(type) {
+					case *ssa.Call:
+						if b, ok := x.Call.Value.(*ssa.Builtin); ok && b.Name() == "close" && len(x.Call.Args) == 1 {
+							if k := chanKey(x.Call.Args[0]); k != "" {
+								closedIn[k] = fn
+								closedAt[k] = in
+							}
+						}
+					case *ssa.Send:
+						if k := chanKey(x.Chan); k != "" {
+							sends[k] = append(sends[k], in)
+						}
+					case *ssa.Select:
+						for _, st := range x.States {
+							if st.Dir == types.SendOnly {
+								if k := chanKey(st.Chan); k != "" {
+									sends[k] = append(sends[k], in)
+								}
+							}
+						}
+					}
+				})
+			}
+			var keys []string
+			for k := range closedIn {
+				keys = append(keys, k)
+			}
+			sort.Strings(keys)
+			for _, k := range keys {
+				nClosed++
+				bad := ""
+				for _, sd := range sends[k] {
+					if sd.Parent() != closedIn[k] {
+						bad = core.FuncName(sd.Parent()) + " at " + c.Pos(sd)
+					}
+				}
+				c.Decide(bad == "", "R16.8", "closed-channel-has-no-foreign-sender:"+k, c.Pos(closedAt[k]), fmt.Sprintf("%d send(s) on the channel, all in the function that closes it", len(sends[k])), core.FuncName(closedIn[k])+" closes the channel "+k+" while "+bad+" sends on it from another function (another goroutine): a send after the close panics (send on closed channel) — tearing the face down crashes the process")
+			}
+		}
+		c.Floor("R16.8", "channel fields closed in fw/", nClosed, 1)
+	}
 }
 
 // isFreshObject: the object is allocated in the current function (new / composite literal).
@@ -745,4 +815,146 @@ func returnsRelease(fn *ssa.Function, want string, recv ssa.Value) bool {
 		}
 	})
 	return ok && n > 0
+}
+
+// selfWait — a function that is the only receiver of a channel kept in a struct field
+// never makes a blocking send on that channel in anything it runs synchronously (static
+// calls, deferred calls, closures it calls): once the buffer is full the goroutine waits
+// for a receive that only it could perform. This is how a deferred Close() that notifies
+// the receive loop's own wake-up channel hangs the teardown of a face for ever.
+func selfWait(c *core.Ctx, rule string, pkgs []string, why string) int {
+	p := c.P
+	nRecv := 0
+	for _, pkg := range pkgs {
+		var fns []*ssa.Function
+		for _, f := range p.FuncsIn(core.ModPath + "/" + pkg) {
+			if !strings.HasSuffix(p.File(f.Pos()), "_test.go") && f.Blocks != nil {
+				fns = append(fns, f)
+			}
+		}
+		chanField := func(ch ssa.Value) string {
+			if _, path := core.FieldPath(ch); len(path) > 0 {
+				if t := core.Deref(rootType(ch)); t != nil {
+					return strings.TrimPrefix(t.String(), core.ModPath+"/") + "." + path[len(path)-1]
+				}
+				return path[len(path)-1]
+			}
+			return ""
+		}
+		// receivers of each channel field; an anonymous function counts for the function
+		// that contains it only when that function calls it itself (not `go`, not stored)
+		recvBy := map[string]map[*ssa.Function]bool{}
+		for _, f := range fns {
+			core.Instrs(f, func(in ssa.Instruction) {
+				var chs []ssa.Value
+				switch x := in.(type) {
+				case *ssa.UnOp:
+					if x.Op == token.ARROW {
+						chs = append(chs, x.X)
+					}
+				case *ssa.Select:
+					for _, st := range x.States {
+						if st.Dir == types.RecvOnly {
+							chs = append(chs, st.Chan)
+						}
+					}
+				case *ssa.Range:
+					if _, isCh := x.X.Type().Underlying().(*types.Chan); isCh {
+						chs = append(chs, x.X)
+					}
+				}
+				for _, ch := range chs {
+					if k := chanField(ch); k != "" {
+						if recvBy[k] == nil {
+							recvBy[k] = map[*ssa.Function]bool{}
+						}
+						recvBy[k][f] = true
+					}
+				}
+			})
+		}
+		var keys []string
+		for k := range recvBy {
+			keys = append(keys, k)
+		}
+		sort.Strings(keys)
+		for _, k := range keys {
+			if len(recvBy[k]) != 1 {
+				continue
+			}
+			var fn *ssa.Function
+			for f := range recvBy[k] {
+				fn = f
+			}
+			nRecv++
+			c.Funcs[core.FuncName(fn)] = true
+			reach := map[*ssa.Function]bool{fn: true}
+			via := map[*ssa.Function]*ssa.Function{}
+			work := []*ssa.Function{fn}
+			for len(work) > 0 {
+				g := work[len(work)-1]
+				work = work[:len(work)-1]
+				core.Instrs(g, func(in ssa.Instruction) {
+					var cc *ssa.CallCommon
+					switch x := in.(type) {
+					case *ssa.Call:
+						cc = &x.Call
+					case *ssa.Defer:
+						cc = &x.Call
+					}
+					if cc == nil {
+						return
+					}
+					cal := cc.StaticCallee()
+					if cal == nil || cal.Blocks == nil || cal.Pkg == nil || !strings.HasPrefix(cal.Pkg.Pkg.Path(), core.ModPath) || reach[cal] {
+						return
+					}
+					reach[cal] = true
+					via[cal] = g
+					work = append(work, cal)
+				})
+			}
+			bad := ""
+			var rs []*ssa.Function
+			for g := range reach {
+				rs = append(rs, g)
+			}
+			sort.Slice(rs, func(i, j int) bool { return core.FuncName(rs[i]) < core.FuncName(rs[j]) })
+			for _, g := range rs {
+				core.Instrs(g, func(in ssa.Instruction) {
+					var ch ssa.Value
+					switch x := in.(type) {
+					case *ssa.Send:
+						ch = x.Chan
+					case *ssa.Select:
+						if x.Blocking {
+							for _, st := range x.States {
+								if st.Dir == types.SendOnly && chanField(st.Chan) == k && len(x.States) == 1 {
+									ch = st.Chan
+								}
+							}
+						}
+					}
+					if ch == nil || chanField(ch) != k {
+						return
+					}
+					chain := core.FuncName(g)
+					for h := via[g]; h != nil; h = via[h] {
+						chain = core.FuncName(h) + " → " + chain
+					}
+					bad = fmt.Sprintf("%s sends on it at %s (%s)", core.FuncName(g), c.Pos(in), chain)
+				})
+			}
+			c.Decide(bad == "", rule, "only-receiver-does-not-wait-for-itself:"+k, p.Pos(fn.Pos()), fmt.Sprintf("%s is the only receiver of %s; no blocking send on it in the %d functions it runs synchronously", core.FuncName(fn), k, len(reach)), core.FuncName(fn)+" is the only receiver of the channel "+k+" and makes a blocking send on it in what it runs itself: "+bad+" — "+why)
+		}
+	}
+	return nRecv
+}
+
+func rootType(v ssa.Value) types.Type {
+	root, _ := core.FieldPath(v)
+	if root == nil {
+		return nil
+	}
+	return root.Type()
 }
